@@ -485,7 +485,9 @@ uint32_t LessThan_deepPTRef::getVarIdFromProduct(PTRef tr) const {
 bool LessThan_deepPTRef::operator()(PTRef x_, PTRef y_) const {
     uint32_t id_x = l.isTimes(x_) ? getVarIdFromProduct(x_) : x_.x;
     uint32_t id_y = l.isTimes(y_) ? getVarIdFromProduct(y_) : y_.x;
-    return id_x < id_y;
+    if (id_x != id_y) { return id_x < id_y; }
+    // Terms over the same variable stay adjacent, in a fixed order that does not depend on the order of the arguments
+    return x_.x < y_.x;
 }
 
 void ArithLogic::termSort(vec<PTRef> & v) const {
